@@ -273,6 +273,12 @@ pub fn gen_case(t: &mut Tape) -> Case {
                 src.push_str(&format!("macro_rules! __mk_the_fn {{ ($p:ident) => {{\n/*GEN*/ #[{mac}(pub TheTrait, mock_api = TheMock{nd}{exp})]\n{}\n}} }}\n__mk_the_fn!({passed});\n", fm.render("")));
                 classes.push("fn_from_macro_rules_with_same_spelled_parameters");
                 nontrivial = true;
+            } else if t.chance(1, 6) {
+                // ... or with the option that switches the mock on passed in by the caller (`$o:ident`): the attribute the
+                // macro generates for the mock library must not take its hygiene from that option
+                src.push_str(&format!("macro_rules! __mk_the_fn {{ ($($o:ident),*) => {{\n/*GEN*/ #[{mac}(pub TheTrait, mock_api = TheMock{nd}{exp} $(, $o)*)]\n{}\n}} }}\n__mk_the_fn!(unimock);\n", f.render("")));
+                classes.push("fn_in_macro_rules_with_the_mock_option_passed_as_a_fragment");
+                nontrivial = true;
             } else {
                 src.push_str(&format!("/*GEN*/ #[{mac}(pub TheTrait, mock_api = TheMock{nd}{exp})]\n{}\n", f.render("")));
             }
